@@ -12,9 +12,11 @@
 (*               byte, so at most n of them are ever visited)              *)
 (*   data        length prefix must fit before it is read, then payload    *)
 (* Result [valid, size] + ghosts: hi (upper bound of the offsets read),    *)
-(* steps (number of validate steps), why / at (which member did not fit,   *)
-(* and where it starts), short / zf (classification of the buffer, used    *)
-(* only to name mismatch classes).                                         *)
+(* steps (number of validate steps), why / at / fw (which member did not    *)
+(* fit, where it starts, width of a length prefix that did not fit),       *)
+(* short / zf / fr (classification of the buffer, used only to name        *)
+(* mismatch classes: fr = compiled scalar fields of visited blocks that    *)
+(* lie beyond the wire blockLength).                                       *)
 (*                                                                         *)
 (* The invariants compare the budgeted walk with an independent forward    *)
 (* size computation (StructEnd: saturating end addresses, no budget) and,  *)
@@ -48,7 +50,9 @@ TabDef == [dimsize |-> LDimSize, dimoff |-> LDimOff, dimw |-> LDimW, lenw |-> LL
            ce |-> ([li \in 1 .. NL |-> CEDef(li)]) \o <<>>,
            flat |-> ([li \in 1 .. NL |-> IsFlat(LDef[li])]) \o <<>>,
            ng |-> ([li \in 1 .. NL |-> Len(LDef[li].groups)]) \o <<>>,
-           nd |-> ([li \in 1 .. NL |-> Len(LDef[li].data)]) \o <<>>]
+           nd |-> ([li \in 1 .. NL |-> Len(LDef[li].data)]) \o <<>>,
+           \* value-returning (scalar) fields of each level: what visit_children reads
+           sc |-> ([li \in 1 .. NL |-> SelectSeq(LFields[li], LAMBDA f : f.kind = "scalar")]) \o <<>>]
 TabInit == tab = TabDef
 TDimSize(gli) == tab.dimsize[gli]
 TLenW(li, d) == tab.lenw[li][d]
@@ -61,12 +65,12 @@ ASSUME Pad \in Nat /\ Pairs \in BOOLEAN /\ PairMod \in Nat
 ----------------------------------------------------------------------------
 (* The budgeted walk.  A walk state is a record                            *)
 (*   ok, a (address of the next unread member), rem (budget left),         *)
-(*   hi (end of the furthest read), steps, why, short, zf                  *)
+(*   hi (end of the furthest read), steps, why, short, zf, fr              *)
 (* Every operator below receives its walk state as a VALUE (call sites     *)
 (* bind through singleton sets): TLC re-evaluates state-level arguments at *)
 (* every use.                                                              *)
 St0(start, nn) == [ok |-> TRUE, a |-> start, rem |-> nn, hi |-> start, steps |-> 0,
-                   why |-> "", short |-> FALSE, zf |-> FALSE]
+                   why |-> "", short |-> FALSE, zf |-> FALSE, fr |-> <<>>, fw |-> 0]
 
 Fail(st, why) == [st EXCEPT !.ok = FALSE, !.steps = @ + 1, !.why = why]
 \* validate-and-subtract: one step
@@ -79,10 +83,19 @@ Touch(st, at0, w) == [st EXCEPT !.hi = IF at0 + w > @ THEN at0 + w ELSE @]
 \* walk of the block would touch
 CE(li) == tab.ce[li]
 MarkShort(st, li, bl) == IF bl < CE(li) THEN [st EXCEPT !.short = TRUE] ELSE st
+\* ghost fr: the level instance li at a, whose block of bl bytes has just been
+\* paid, is about to be visited; an accessor-based visit reads its scalar fields
+\* at their COMPILED offsets.  Those that end beyond the wire block are recorded
+\* ([off, w], absolute): a read there is the 'field beyond the wire block' class.
+ShortReads(li, a, bl) ==
+  ([k \in 1 .. Len(SelectSeq(tab.sc[li], LAMBDA f : f.off + f.size > bl)) |->
+      [off |-> a + SelectSeq(tab.sc[li], LAMBDA f : f.off + f.size > bl)[k].off,
+       w |-> SelectSeq(tab.sc[li], LAMBDA f : f.off + f.size > bl)[k].size]]) \o <<>>
+NoteReads(st, li, a, bl) == IF st.ok /\ bl < CE(li) THEN [st EXCEPT !.fr = @ \o ShortReads(li, a, bl)] ELSE st
 
 FitsData(b, st, li, d) ==
   IF ~st.ok THEN st
-  ELSE IF TLenW(li, d) > st.rem THEN Fail(st, "dlen")
+  ELSE IF TLenW(li, d) > st.rem THEN [Fail(st, "dlen") EXCEPT !.fw = TLenW(li, d)]
   ELSE Take(Touch(st, st.a, TLenW(li, d)), TLenW(li, d) + Rd(b, st.a, TLenW(li, d)), "data")
 
 RECURSIVE FitsGroupAt(_, _, _), FitsEntries(_, _, _, _, _), FitsMem(_, _, _, _)
@@ -104,7 +117,8 @@ FitsEntries(b, s, gli, bl, cnt) ==
   IF ~s.ok \/ cnt = 0 THEN s
   ELSE IF bl > s.rem THEN Fail(s, "entry")
   ELSE CHOOSE r \in {FitsEntries(b, s2, gli, bl, cnt - 1) :
-                       s2 \in {FitsMem(b, s1, gli, 1) : s1 \in {Take(s, bl, "entry")}}} : TRUE
+                       s2 \in {FitsMem(b, s1, gli, 1) :
+                                 s1 \in {NoteReads(Take(s, bl, "entry"), gli, s.a, bl)}}} : TRUE
 
 \* the group gli whose dimension starts at st.a
 FitsGroupAt(b, st, gli) ==
@@ -121,18 +135,20 @@ FitsGroupAt(b, st, gli) ==
 
 Result(st, nn) == [done |-> TRUE, valid |-> st.ok, size |-> IF st.ok THEN nn - st.rem ELSE 0,
                    hi |-> st.hi, steps |-> st.steps, why |-> st.why, short |-> st.short, zf |-> st.zf,
-                   at |-> st.a]
+                   at |-> st.a, fr |-> st.fr, fw |-> st.fw]
 NoRes == [done |-> FALSE, valid |-> FALSE, size |-> 0, hi |-> 0, steps |-> 0, why |-> "",
-          short |-> FALSE, zf |-> FALSE, at |-> 0]
+          short |-> FALSE, zf |-> FALSE, at |-> 0, fr |-> <<>>, fw |-> 0]
 
 \* message view at V0
 FitsMsgSt(b, nn) ==
   IF tab.hsize > nn THEN Fail(St0(V0, nn), "header")
   ELSE CHOOSE r \in
          {IF ~s.ok THEN s ELSE FitsMem(b, s, 1, 1) :
-            s \in {MarkShort(Take(Take(Touch(St0(V0, nn), V0 + tab.hbloff, tab.hblw), tab.hsize, "header"),
-                                  TRootBL(b), "rootblock"),
-                             1, TRootBL(b))}} : TRUE
+            s \in {NoteReads(MarkShort(Take(Take(Touch(St0(V0, nn), V0 + tab.hbloff, tab.hblw),
+                                                 tab.hsize, "header"),
+                                            TRootBL(b), "rootblock"),
+                                       1, TRootBL(b)),
+                             1, V0 + tab.hsize, TRootBL(b))}} : TRUE
 Fits(b, nn) == CHOOSE r \in {Result(st, nn) : st \in {FitsMsgSt(b, nn)}} : TRUE
 
 \* group view: the group gli whose dimension starts at ga
@@ -318,6 +334,8 @@ FitsVector ==
    view |-> vw.kind, level |-> vw.lvl, name |-> vw.name, ip |-> vw.ip, start |-> vw.ga,
    n |-> n, valid |-> res'.valid, size |-> res'.size, max_steps |-> KK * (n + 1),
    steps |-> res'.steps, why |-> res'.why, at |-> res'.at, short |-> res'.short, zf |-> res'.zf,
+   freads |-> res'.fr,
+   lenw |-> res'.fw,
    cor |-> CorClass, ncls |-> CHOOSE x \in {NClass(e) : e \in {StructEnd(buf, vw)}} : TRUE,
    ops |-> [k \in 1 .. Len(cor) |-> [kind |-> cor[k].kind, off |-> cor[k].off, cls |-> cor[k].cls,
                                      bytes |-> cor[k].bytes]],
